@@ -9,6 +9,12 @@ Extracted (regex over the source text, constants resolved through XalanUnicode.h
     isCharRefForbidden()/range() of both functors
   * XalanUTF8Writer.hpp / XalanUTF16Writer.hpp / XalanOtherEncodingWriter.hpp: kBufferSize
   * XalanOutputStream.hpp: eDefaultBufferSize
+  * the bulk entry write(const value_type*, size_type) of XalanUTF8Writer / XalanUTF16Writer, token by token: the three
+    regimes (longer than the buffer: [flushBuffer();] direct m_writer.write; else flush when it does not fit, copy) -
+    whether flushBuffer() precedes the direct write is emitted as bulkFlushUTF8 / bulkFlushUTF16; flushBuffer() itself;
+    XalanOtherEncodingWriter::write(const XalanDOMChar*, size_type) must be the unit-by-unit loop (no bulk path);
+    XalanOutputStream::write(const XalanDOMChar*, size_type): flush when the run does not fit, direct write only with an
+    empty buffer (bulkFlushStream)
   * FormatterToXMLUnicode.hpp, writeCDATAChars: the look-ahead guard of the "]]>" test (as an unsigned
     64-bit expression), which constant is written when `outsideCDATA == true` in that branch, whether the
     section is re-opened at the end of the function; writeCDATA: the condition of the final close.
@@ -147,6 +153,62 @@ def main():
         die("XalanOutputStream::transcode: initial theDestinationSize has an unexpected form")
     sizes["transcode_factor"] = int(m.group(1))
 
+    # the bulk entry write(const value_type*, size_type) of the writers: three regimes
+    #   longer than the buffer: [flushBuffer();] m_writer.write(theChars, 0, theLength)   <- the flush is read as a flag
+    #   else: if (m_bufferRemaining < theLength) flushBuffer(); copy; m_bufferRemaining -= theLength
+    bulk_flush = {}
+    for tag, rel, limit in (("utf8", "XMLSupport/XalanUTF8Writer.hpp", r"(?:sizeof\s*\(\s*m_buffer\s*\)|kBufferSize)"),
+                            ("utf16", "XMLSupport/XalanUTF16Writer.hpp", r"kBufferSize")):
+        src = strip_comments(read(rel))
+        m = re.search(r"void\s+write\s*\(\s*const\s+value_type\s*\*\s*theChars\s*,\s*size_type\s+theLength\s*\)\s*\{(.*?)\n    \}\n", src, re.S)
+        if not m:
+            die("%s: write(const value_type*, size_type) not found" % rel)
+        body = m.group(1)
+        if "#if" in body:
+            mm = re.search(r"#if\s+!defined\s*\(\s*XALAN_DEBUG\s*\)(.*?)#else(.*?)#endif", body, re.S)
+            if not mm or re.sub(r"\s+", "", mm.group(2)) != "for(size_typei=0;i<theLength;++i){write(theChars[i]);}":
+                die("%s: write(const value_type*, size_type): unexpected preprocessor structure" % rel)
+            body = mm.group(1)
+        b = re.sub(r"\s+", " ", body).strip()
+        mm = re.fullmatch(r"if \(theLength > " + limit + r"\) \{ (flushBuffer\(\); )?m_writer\.write\(theChars, 0, theLength\); \} else \{ "
+                          r"if \(m_bufferRemaining < theLength\) \{ flushBuffer\(\); \} "
+                          r"for ?\(size_type i = 0; i < theLength; \+\+i\) \{ \*m_bufferPosition = theChars\[i\]; \+\+m_bufferPosition; \} "
+                          r"m_bufferRemaining -= theLength; \}", b)
+        if not mm:
+            die("%s: write(const value_type*, size_type) has an unexpected form: %s" % (rel, b[:300]))
+        bulk_flush[tag] = mm.group(1) is not None
+        if tag == "utf8" and not re.search(r"\bvalue_type\s+m_buffer\s*\[\s*kBufferSize\s*\]", src):
+            die("XalanUTF8Writer: m_buffer is not value_type[kBufferSize] (sizeof(m_buffer) is read as kBufferSize)")
+        if not re.search(r"flushBuffer\s*\(\s*\)\s*\{\s*m_writer\.write\s*\(\s*m_buffer\s*,\s*0\s*,\s*m_bufferPosition\s*-\s*m_buffer\s*\)\s*;\s*"
+                         r"m_bufferPosition\s*=\s*m_buffer\s*;\s*m_bufferRemaining\s*=\s*kBufferSize\s*;\s*\}", src):
+            die("%s: flushBuffer has an unexpected form" % rel)
+    # XalanOtherEncodingWriter has no bulk path: write(const XalanDOMChar*, size_type) goes unit by unit
+    oth = strip_comments(read("XMLSupport/XalanOtherEncodingWriter.hpp"))
+    m = re.search(r"void\s+write\s*\(\s*const\s+XalanDOMChar\s*\*\s*theChars\s*,\s*size_type\s+theLength\s*\)\s*\{(.*?)\n    \}\n", oth, re.S)
+    if not m or re.sub(r"\s+", "", m.group(1)) != "for(size_typei=0;i<theLength;++i){write(theChars[i]);}":
+        die("XalanOtherEncodingWriter::write(const XalanDOMChar*, size_type) is not the unit-by-unit loop")
+    if not re.search(r"flushBuffer\s*\(\s*\)\s*\{\s*m_writer\.write\s*\(\s*m_buffer\s*,\s*0\s*,\s*m_bufferPosition\s*-\s*m_buffer\s*\)\s*;\s*"
+                     r"m_bufferPosition\s*=\s*m_buffer\s*;\s*m_bufferRemaining\s*=\s*kBufferSize\s*;\s*\}", oth):
+        die("XalanOtherEncodingWriter::flushBuffer has an unexpected form")
+    # XalanOutputStream::write(const XalanDOMChar*, size_type): flush when the run does not fit; the direct write only
+    # with an empty buffer
+    m = re.search(r"XalanOutputStream::write\s*\(\s*const\s+XalanDOMChar\s*\*\s*theBuffer\s*,\s*size_type\s+theBufferLength\s*\)\s*\{(.*?)\n\}\n", xos, re.S)
+    if not m:
+        die("XalanOutputStream::write(const XalanDOMChar*, size_type) not found")
+    b = re.sub(r"\s+", " ", m.group(1)).strip()
+    mm = re.fullmatch(r"assert\(theBuffer != 0\); (if \(theBufferLength \+ m_buffer\.size\(\) > m_bufferSize\) \{ flushBuffer\(true\); \} )?"
+                      r"if \(theBufferLength > m_bufferSize &&( m_buffer\.empty\(\) == true &&)? \(m_writeAsUTF16 == true \|\| "
+                      r"isLeadingSurrogate\(theBuffer\[theBufferLength - 1\]\) == false\)\) \{ doWrite\(theBuffer, theBufferLength\); \} else \{ "
+                      r"m_buffer\.insert\(m_buffer\.end\(\), theBuffer, theBuffer \+ theBufferLength\); "
+                      r"if \(theBufferLength > m_bufferSize\) \{ flushBuffer\(true\); \} \}", b)
+    if not mm:
+        die("XalanOutputStream::write(const XalanDOMChar*, size_type) has an unexpected form: " + b[:400])
+    # ordered iff the direct write happens only with an empty buffer (the guard); the flush in front makes the buffer
+    # empty (up to a held-back surrogate half, which then takes the buffered path)
+    bulk_flush["stream"] = mm.group(2) is not None
+    if mm.group(1) is None and mm.group(2) is None:
+        bulk_flush["stream"] = False
+
     # CDATA logic of FormatterToXMLUnicode
     uni_hpp = strip_comments(read("XMLSupport/FormatterToXMLUnicode.hpp"))
     m = re.search(r"\bvoid\s+writeCDATAChars\s*\(([^)]*)\)\s*\{(.*?)\n    \}\n", uni_hpp, re.S)
@@ -275,6 +337,11 @@ def main():
     L.append("def kBufferSizeUTF16 : Nat := %d" % sizes["utf16"])
     L.append("def kBufferSizeOther : Nat := %d" % sizes["other"])
     L.append("def streamBufferSize : Nat := %d" % sizes["stream"])
+    L.append("/-- the bulk `write(chars, n)` of the writer calls `flushBuffer()` before it hands a run longer than the buffer directly downstream -/")
+    L.append("def bulkFlushUTF8 : Bool := %s" % ("true" if bulk_flush["utf8"] else "false"))
+    L.append("def bulkFlushUTF16 : Bool := %s" % ("true" if bulk_flush["utf16"] else "false"))
+    L.append("/-- `XalanOutputStream::write(const XalanDOMChar*, n)` writes a long run directly only when its buffer is empty -/")
+    L.append("def bulkFlushStream : Bool := %s" % ("true" if bulk_flush["stream"] else "false"))
     L.append("/-- XalanOutputStream::transcode: `theDestinationSize = theBufferLength * %d` -/" % sizes["transcode_factor"])
     L.append("def transcodeDestFactor : Nat := %d" % sizes["transcode_factor"])
     L.append("")
